@@ -1,27 +1,27 @@
 """C13 frame analysis: a modular, per-function static check over the real AST of $VERIF_REPO/src (default /repo).
 
-For every function of contracts/c13_frames.ANALYSES (contract: "modifies nothing") and HELPERS (contract: "every
-effect is undone when the enclosing context exits, given the `requires` preconditions") the checker
-  1. computes, flow-insensitively, which names hold the argument model (M), its objective (O), other parts of it
-     (P), another model (X), a copy (C), objects created here (F) or plain data (V) -- a value is a pair
-     (kinds of the object itself, kinds of the elements it may contain);
-  2. enumerates every site that can touch the model (calls with a model-kind receiver or argument, attribute and
-     item stores on model-kind objects, augmented assignments, references to helper functions);
-  3. classifies the site with the EFFECTS table and decides it:
-       pure/copy/analysis  discharged (callee contract);
-       ctx     discharged iff lexically inside `with <M>:` of this function (or the function is a helper whose
-               precondition says so); otherwise FAILED (the undo is never registered);
-       raw     discharged iff (iii) it writes back a value saved from the same attribute at function entry, or
-               (i) an enclosing / immediately following try has a `finally` doing (iii) for the same attribute, or
-               (ii) objective writes: a set_objective reset of M was registered earlier in a still open context
-               (dominating statement `M.objective = ...` or an establishing helper) -- the reset re-installs
-               expression and direction captured before the write (util/solver.py set_objective), or
-               (iv) solver-object writes: the object is looked up under a name the enclosing context owns;
-               FAILED when no context/try can undo it, UNDECIDED when that cannot be told;
-       helper reference    discharged iff every precondition token is established at the reference;
-       unknown callee      UNDECIDED (never discharged, never a violation).
-`with` runs __exit__ on every exit and every call may raise (trusted: C03, see explain()).
-Deterministic, stdlib only.  CLI: python -m pyvc.frame_check [-v] [--json]
+For every function of contracts/c13_frames.ANALYSES (contract "modifies nothing") and HELPERS (contract "every effect
+is undone when the enclosing context exits, given the `requires` preconditions") the checker
+ 1. computes flow-insensitively which names hold the argument model (M), its objective (O), other parts of it (P),
+    another model (X), a copy (C), objects created here (F) or plain data (V); a value is a pair (kinds of the object
+    itself, kinds of the elements it may contain);
+ 2. enumerates every site that can touch the model: calls with a model-kind receiver or argument, attribute / item
+    stores and augmented assignments on model-kind objects, references to helper functions;
+ 3. classifies the site with the EFFECTS table and decides it:
+    pure/copy/analysis  discharged by the callee's contract;
+    ctx   discharged iff lexically inside `with <M>:` of this function (or the function is a helper whose precondition
+          says so), else FAILED: the undo is never registered;
+    raw   discharged iff (iii) it writes back a value saved from the same attribute at function entry, or (i) an
+          enclosing / immediately following `try` has a `finally` doing (iii) for the same attribute, or (ii) objective
+          writes: a set_objective reset of M was registered earlier in a still open context (a dominating statement
+          `M.objective = ...` or establishing helper call) -- util/solver.py set_objective re-installs the expression
+          and direction captured before the write, or (iv) solver-object writes: the object is looked up under a name
+          the open context owns (helper precondition); FAILED when no context / try can undo it, UNDECIDED when that
+          cannot be told;
+    helper reference  discharged iff every precondition token is established at the reference, FAILED if certainly not;
+    unknown callee    UNDECIDED (never discharged, never a violation).
+`with` runs __exit__ on every exit and every call may raise (trusted: C03, see explain()).  Deterministic, stdlib only.
+CLI: python -m pyvc.frame_check [-v] [--json]
 """
 import ast
 import fnmatch
@@ -35,6 +35,8 @@ from contracts import c13_frames as T  # noqa: E402
 
 MODEL = frozenset("MOPX")
 EFFECTFUL = ("ctx", "raw", "helper", "unknown")
+PLAIN = T.M_VALUE_ATTRS | T.P_VALUE_ATTRS
+ORDER = ("no", "maybe", "yes")
 
 
 def tv(s, e=""):
@@ -45,11 +47,7 @@ VAL, EMPTY = tv("V"), tv("")
 
 
 def join(*ts):
-    s, e = set(), set()
-    for t in ts:
-        s |= t[0]
-        e |= t[1]
-    return (frozenset(s), frozenset(e))
+    return (frozenset().union(*[t[0] for t in ts]), frozenset().union(*[t[1] for t in ts]))
 
 
 def flat(t):
@@ -67,7 +65,18 @@ def wrap(ts):
 
 
 def norm(path):
-    return path.replace(".solver.objective", ".objective")  # Model.objective getter returns self.solver.objective
+    return path.replace(".solver.objective", ".objective")  # the Model.objective getter returns self.solver.objective
+
+
+def _last(f):
+    return f.attr if isinstance(f, ast.Attribute) else f.id if isinstance(f, ast.Name) else None
+
+
+def _arg_for(call, fdef, pname):
+    """The argument expression a call passes for parameter `pname` of fdef (or None)."""
+    params = [a.arg for a in fdef.args.args]
+    kw = next((k.value for k in call.keywords if k.arg == pname), None)
+    return kw if kw is not None else call.args[params.index(pname)] if pname in params and params.index(pname) < len(call.args) else None
 
 
 # ------------------------------------------------------------------------------------------------ table indexing
@@ -79,7 +88,7 @@ for _k in AN:
 for _k in HP:
     BYNAME.setdefault(_k[1], []).append(("helper", _k))
 MODEL_METHODS = {q.split(".")[1] for (m, q) in AN if q.startswith("Model.")}
-_ev_cache = {}
+_cache = {}
 
 
 def resolve(mi, name, method=False):
@@ -89,72 +98,57 @@ def resolve(mi, name, method=False):
         return None
     modname, orig = (None, name) if method else mi.imports.get(name, (None, name))
     orig = orig or name
-    if not method:
-        ctor = next((k for k in AN if k[1] == orig + ".__init__"), None)
-        if ctor:
-            return ("analysis", ctor)
+    ctor = None if method else next((k for k in AN if k[1] == orig + ".__init__"), None)
+    if ctor:
+        return ("analysis", ctor)
     cands = [c for c in BYNAME.get(orig, []) if ("." in c[1][1]) == method]
-    if not cands:
-        return None
-    local = method or orig in mi.functions
     rel = (modname or "").replace(".", "/") + ".py"
     for c in cands:
-        if (c[1][0] == mi.relpath and local) or c[1][0] == rel:
+        if (c[1][0] == mi.relpath and (method or orig in mi.functions)) or c[1][0] == rel:
             return c
-    return None if (not method and orig in mi.functions) else cands[0]
+    return None if not cands or (not method and orig in mi.functions) else cands[0]
 
 
 def lookup(form, atom, name, nargs=None):
+    """First EFFECTS row matching (form, receiver kind, name[/number of arguments]) -> (index, row) | (None, None)."""
     for i, row in enumerate(T.EFFECTS):
-        if row[0] != form or (row[1] != "*" and atom not in row[1]):
-            continue
-        for p in row[2].split("|"):
-            p, _, n = p.partition("/")
-            if fnmatch.fnmatchcase(name, p) and (not n or nargs == int(n)):
-                return i, row
+        if row[0] == form and (row[1] == "*" or atom in row[1]):
+            for p in row[2].split("|"):
+                p, _, n = p.partition("/")
+                if fnmatch.fnmatchcase(name or "?", p) and (not n or nargs == int(n)):
+                    return i, row
     return None, None
-
-
-def _last(f):
-    return f.attr if isinstance(f, ast.Attribute) else f.id if isinstance(f, ast.Name) else None
 
 
 def verify_evidence(i):
     """Re-check the structured evidence of EFFECTS row i on the real source.  -> (ok, text)"""
-    key = (source.SRC, i)
-    if key in _ev_cache:
-        return _ev_cache[key]
-    out, ok = [], True
-    for rel, qual, kind, arg in T.EFFECTS[i][5]:
-        try:
-            node = source.module(rel).find(qual)
-        except (KeyError, OSError) as e:
-            ok, _ = False, out.append(f"{rel}:{qual} not found ({e})")
-            continue
-        calls = {_last(c.func) for c in ast.walk(node) if isinstance(c, ast.Call)}
-        names = calls | {a.attr for a in ast.walk(node) if isinstance(a, ast.Attribute)}
-        if kind == "resettable":
-            good = any(source._deco_name(d) == "resettable" for d in node.decorator_list)
-        elif kind == "get_context":
-            good = "get_context" in calls and "context" in calls
-        else:
-            good = all(x in names for x in arg.split(","))
-        ok = ok and good
-        out.append(f"{rel}:{qual}@L{node.lineno} {kind}{'(' + arg + ')' if arg else ''} {'ok' if good else 'MISSING'}")
-    _ev_cache[key] = (ok, "; ".join(out))
-    return _ev_cache[key]
+    key = (source.SRC, "ev", i)
+    if key not in _cache:
+        out, ok = [], True
+        for rel, qual, kind, arg in T.EFFECTS[i][5]:
+            try:
+                node = source.module(rel).find(qual)
+            except (KeyError, OSError) as e:
+                ok = False
+                out.append(f"{rel}:{qual} not found ({e})")
+                continue
+            calls = {_last(c.func) for c in ast.walk(node) if isinstance(c, ast.Call)}
+            names = calls | {a.attr for a in ast.walk(node) if isinstance(a, ast.Attribute)}
+            good = (any(source._deco_name(d) == "resettable" for d in node.decorator_list) if kind == "resettable"
+                    else ("get_context" in calls and "context" in calls) if kind == "get_context" else all(x in names for x in arg.split(",")))
+            ok = ok and good
+            out.append(f"{rel}:{qual}@L{node.lineno} {kind}{'(' + arg + ')' if arg else ''} {'ok' if good else 'MISSING'}")
+        _cache[key] = (ok, "; ".join(out))
+    return _cache[key]
 
 
 def helper_establishes(h, token):
-    """Structural re-verification that helper h establishes `token` (objective only; owned:* is trusted)."""
-    if token not in h["establishes"]:
-        return False
-    if token != "objective":
-        return True
+    """Structural re-verification that helper h establishes `token` (objective only; owned:* is trusted from the table)."""
+    if token not in h["establishes"] or token != "objective":
+        return token in h["establishes"]
     node, cond = source.module(h["mod"]).find(h["fn"]), h["establishes"][token]
-    body = node.body
-    if cond is not None:
-        body = [s for i in node.body if isinstance(i, ast.If) and isinstance(i.test, ast.Name) and i.test.id == cond for s in i.body]
+    body = node.body if cond is None else [s for i in node.body if isinstance(i, ast.If) and isinstance(i.test, ast.Name)
+                                           and i.test.id == cond for s in i.body]
     return any(isinstance(s, ast.Assign) and any(isinstance(t, ast.Attribute) and t.attr == "objective" and isinstance(t.value, ast.Name)
                                                  and t.value.id == h["model"] for t in s.targets) for s in body)
 
@@ -162,29 +156,24 @@ def helper_establishes(h, token):
 # ------------------------------------------------------------------------------------------------ per function
 class Fn:
     def __init__(self, rel, qual, mexpr, helper=None):
-        self.rel, self.qual, self.mexpr, self.helper = rel, qual, mexpr, helper
+        self.rel, self.qual, self.mexpr = rel, qual, mexpr
         self.requires = tuple(helper["requires"]) if helper else ()
         self.mi = source.module(rel)
         self.root = self.mi.find(qual)
-        self.par = {}
+        self.par, self.env, self.fassign, self.classes = {}, {}, {}, []
         for p in ast.walk(self.root):
             for field, val in ast.iter_fields(p):
-                if isinstance(val, list):
-                    for i, c in enumerate(val):
-                        if isinstance(c, ast.AST):
-                            self.par[c] = (p, field, i)
-                elif isinstance(val, ast.AST):
-                    self.par[val] = (p, field, None)
+                for i, c in enumerate(val) if isinstance(val, list) else [(None, val)]:
+                    if isinstance(c, ast.AST):
+                        self.par[c] = (p, field, i)
+            if isinstance(p, ast.Assign) and len(p.targets) == 1 and isinstance(p.targets[0], ast.Name):
+                self.fassign.setdefault(p.targets[0].id, []).append(p.value)
         self.nested = {n.name: n for n in ast.walk(self.root) if isinstance(n, ast.FunctionDef) and n is not self.root}
-        self.env, self.fassign = {}, {}
         if mexpr == "<init>":
             self.env.update(init_env(rel, qual.split(".")[0]))
         elif mexpr and (mexpr.startswith("self.") or mexpr == "_model"):
             self.env[mexpr] = tv("M")
-        for n in ast.walk(self.root):
-            if isinstance(n, ast.Assign) and len(n.targets) == 1 and isinstance(n.targets[0], ast.Name):
-                self.fassign.setdefault(n.targets[0].id, []).append(n.value)
-        for _ in range(12):
+        for _ in range(12):  # flow-insensitive fixpoint over all bindings
             before = dict(self.env)
             for n in ast.walk(self.root):
                 self.bind_stmt(n)
@@ -197,20 +186,18 @@ class Fn:
             return tv("M")
         ann = ast.unparse(a.annotation) if a.annotation is not None else None
         if ann is None:
-            return tv("P") if a.arg != "self" else VAL
+            return VAL if a.arg == "self" else tv("P")  # unannotated: assume it may be a part of the model
         if "Model" in ann:
             return tv("X")
         return tv("P") if any(w in ann for w in ("Reaction", "Metabolite", "Gene", "Objective", "Variable", "Constraint", "Group")) else VAL
 
     def key_of(self, n):
+        """Environment key of a name or of `self.attr` (methods of classes built from a model)."""
         if isinstance(n, ast.Name):
             return n.id if n.id != "self" or self.mexpr == "self" else None
         if isinstance(n, ast.Attribute) and isinstance(n.value, ast.Name) and n.value.id == "self" and self.mexpr != "self":
             return "self." + n.attr
         return None
-
-    def envjoin(self, k, t):
-        self.env[k] = join(self.env.get(k, EMPTY), t)
 
     def add_e(self, k, atoms):
         cur = self.env.get(k, VAL)
@@ -219,7 +206,7 @@ class Fn:
     def bind(self, tgt, t, valnode=None):
         k = self.key_of(tgt)
         if k is not None:
-            self.envjoin(k, t)
+            self.env[k] = join(self.env.get(k, EMPTY), t)
         elif isinstance(tgt, (ast.Tuple, ast.List)):
             pair = isinstance(valnode, (ast.Tuple, ast.List)) and len(valnode.elts) == len(tgt.elts)
             for i, e in enumerate(tgt.elts):
@@ -231,57 +218,44 @@ class Fn:
 
     def bind_stmt(self, n):
         if isinstance(n, ast.Assign):
-            t = self.ev(n.value)
             for tgt in n.targets:
-                self.bind(tgt, t, n.value)
+                self.bind(tgt, self.ev(n.value), n.value)
         elif isinstance(n, (ast.AnnAssign, ast.NamedExpr)) and n.value is not None:
             self.bind(n.target, self.ev(n.value), n.value)
-        elif isinstance(n, ast.AugAssign):  # `x += y` keeps the identity/kind of x; y may end up among its elements
-            if self.key_of(n.target) is not None:
-                self.add_e(self.key_of(n.target), flat(self.ev(n.value)))
+        elif isinstance(n, ast.AugAssign) and self.key_of(n.target) is not None:
+            self.add_e(self.key_of(n.target), flat(self.ev(n.value)))  # `x += y` keeps the kind of x; y may become an element
         elif isinstance(n, (ast.For, ast.comprehension)):
             self.bind(n.target, elem(self.ev(n.iter)))
         elif isinstance(n, ast.With):
-            for it in n.items:
+            for it in n.items:  # Model.__enter__ returns self, so `with model as m` aliases
                 if it.optional_vars is not None:
                     self.bind(it.optional_vars, self.ev(it.context_expr))
         elif isinstance(n, (ast.FunctionDef, ast.Lambda)):
-            a = n.args
-            for p in a.posonlyargs + a.args + a.kwonlyargs:
-                self.envjoin(p.arg, self.param_kind(p, n is self.root))
-        elif isinstance(n, ast.Call) and isinstance(n.func, ast.Attribute) and n.func.attr in ("append", "extend", "add", "update", "insert", "setdefault"):
-            k = self.key_of(n.func.value)
-            if k is not None:
-                self.add_e(k, flat(join(*self.argt(n))) if n.args or n.keywords else ())
+            for p in n.args.posonlyargs + n.args.args + n.args.kwonlyargs:
+                self.bind(ast.Name(id=p.arg), self.param_kind(p, n is self.root))
+        elif isinstance(n, ast.Call) and isinstance(n.func, ast.Attribute) and self.key_of(n.func.value) is not None \
+                and n.func.attr in ("append", "extend", "add", "update", "insert", "setdefault"):
+            self.add_e(self.key_of(n.func.value), flat(join(*self.argt(n))) if n.args or n.keywords else ())
 
     def attr_kind(self, t, attr):
         s = set()
         for a in t[0]:
-            if a == "M":
-                s.add("O" if attr == "objective" else "V" if attr in T.M_VALUE_ATTRS else "P")
-            elif a == "O":
-                s.add("V" if attr in T.O_VALUE_ATTRS else "P")
-            elif a == "P":
-                s.add("O" if attr == "objective" else "V" if attr in T.P_VALUE_ATTRS else "P")
-            elif a == "X":
-                s.add("V" if attr in T.M_VALUE_ATTRS | T.P_VALUE_ATTRS else "X")
+            if a in "MP" and attr == "objective":
+                s.add("O")
+            elif a in "MOP":
+                s.add("V" if attr in {"M": T.M_VALUE_ATTRS, "O": T.O_VALUE_ATTRS, "P": T.P_VALUE_ATTRS}[a] else "P")
             else:
-                s.add("V" if attr in T.M_VALUE_ATTRS | T.P_VALUE_ATTRS else a)
+                s.add("V" if attr in PLAIN else a)
         # attributes of a model part are parts or whitelisted plain data; only local objects expose their elements
-        plain = s == {"V"} and attr in T.P_VALUE_ATTRS | T.M_VALUE_ATTRS
-        return (frozenset(s), t[1] if t[0] & set("VCF") and not plain else frozenset())
+        return (frozenset(s), t[1] if t[0] & set("VCF") and not (s == {"V"} and attr in PLAIN) else frozenset())
 
     def argt(self, call):
         return [self.ev(a.value if isinstance(a, ast.Starred) else a) for a in call.args] + [self.ev(k.value) for k in call.keywords]
 
     def ev(self, n):
         k = self.key_of(n)
-        if k is not None:
-            if k in self.env:
-                return self.env[k]
-            if isinstance(n, ast.Name):
-                return tv("M") if (n.id == "self" and self.mexpr == "self") else VAL
-            return VAL if k.startswith("self.") and self.mexpr != "self" else self.attr_kind(self.ev(n.value), n.attr)
+        if k is not None and (k in self.env or isinstance(n, ast.Name) or self.mexpr != "self"):
+            return self.env.get(k, VAL)
         if isinstance(n, ast.Name):  # `self` of a class built from a model: may hold whatever its attributes hold
             return (frozenset("V"), flat(join(*[v for kk, v in self.env.items() if kk.startswith("self.")])) - {"V"})
         if isinstance(n, ast.Attribute):
@@ -290,201 +264,152 @@ class Fn:
             return elem(self.ev(n.value))
         if isinstance(n, ast.Call):
             return self.call_ret(n)
-        if isinstance(n, ast.IfExp):
-            return join(self.ev(n.body), self.ev(n.orelse))
-        if isinstance(n, ast.BoolOp):
-            return join(*[self.ev(v) for v in n.values])
-        if isinstance(n, ast.BinOp):
-            return join(self.ev(n.left), self.ev(n.right))
-        if isinstance(n, (ast.List, ast.Tuple, ast.Set)):
-            return wrap([self.ev(e) for e in n.elts])
-        if isinstance(n, ast.Dict):
-            return wrap([self.ev(e) for e in list(n.keys) + list(n.values) if e is not None])
-        if isinstance(n, (ast.ListComp, ast.SetComp, ast.GeneratorExp)):
-            return wrap([self.ev(n.elt)])
-        if isinstance(n, ast.DictComp):
-            return wrap([self.ev(n.key), self.ev(n.value)])
-        if isinstance(n, (ast.Starred, ast.Await, ast.NamedExpr)):
-            return self.ev(n.value)
-        if isinstance(n, ast.UnaryOp) and not isinstance(n.op, ast.Not):
-            return self.ev(n.operand)
+        if isinstance(n, (ast.IfExp, ast.BoolOp, ast.BinOp)):
+            return join(*[self.ev(v) for v in ([n.body, n.orelse] if isinstance(n, ast.IfExp) else n.values if isinstance(n, ast.BoolOp) else [n.left, n.right])])
+        if isinstance(n, (ast.List, ast.Tuple, ast.Set, ast.Dict)):
+            return wrap([self.ev(e) for e in (list(n.keys) + list(n.values) if isinstance(n, ast.Dict) else n.elts) if e is not None])
+        if isinstance(n, (ast.ListComp, ast.SetComp, ast.GeneratorExp, ast.DictComp)):
+            return wrap([self.ev(e) for e in ([n.key, n.value] if isinstance(n, ast.DictComp) else [n.elt])])
+        if isinstance(n, (ast.Starred, ast.Await, ast.NamedExpr)) or (isinstance(n, ast.UnaryOp) and not isinstance(n.op, ast.Not)):
+            return self.ev(n.operand if isinstance(n, ast.UnaryOp) else n.value)
         return VAL
 
     def mk(self, ret, recv, argt):
-        if ret == "value":
-            return VAL
+        if ret in ("value", "part", "fresh", "copy"):
+            return tv({"value": "V", "part": "P", "fresh": "F", "copy": "C"}[ret])
         if ret == "elem":
             return elem(recv if recv is not None else (argt[0] if argt else VAL))
-        if ret in ("part", "fresh", "copy"):
-            return tv({"part": "P", "fresh": "F", "copy": "C"}[ret])
         return wrap(([recv] if recv is not None else []) + argt)
 
     def call_ret(self, n):
-        f, argt = n.func, self.argt(n)
-        name = _last(f)
+        f, argt, name = n.func, self.argt(n), _last(n.func)
         if name in T.CONSTRUCTORS:
             return tv("F")
-        if isinstance(f, ast.Attribute):
-            rt = self.ev(f.value)
-            atoms = rt[0] & MODEL
-            if atoms:
-                outs = []
-                for a in sorted(atoms):
-                    row = lookup("method", a, name, len(argt))[1]
-                    outs.append(VAL if a == "M" and name in MODEL_METHODS else self.mk(row[4] if row else None, rt, argt))
-                return join(*outs)
-            if rt[0] & set("CF"):  # methods of a copy / a fresh object yield parts of it (or data)
-                return ((rt[0] & set("CF")) | {"V"}, (rt[1] | flat(join(*argt) if argt else VAL)) - {"V"})
-            r = resolve(self.mi, name, method=True) or (resolve(self.mi, name) if isinstance(f.value, ast.Name) and f.value.id in self.mi.imports else None)
-            if r:
-                return self.mk(T.RETURNS.get(r[1][1], "value"), rt, argt)
-            row = lookup("call", "*", name, len(argt))[1]
-            return self.mk(row[4] if row else None, rt, argt)
-        r = resolve(self.mi, name)
+        rt = self.ev(f.value) if isinstance(f, ast.Attribute) else None
+        if rt is not None and rt[0] & MODEL:
+            return join(*[VAL if a == "M" and name in MODEL_METHODS else self.mk((lookup("method", a, name, len(argt))[1] or [None] * 5)[4], rt, argt)
+                          for a in sorted(rt[0] & MODEL)])
+        if rt is not None and rt[0] & set("CF"):  # methods of a copy / a fresh object yield parts of it (or data)
+            return ((rt[0] & set("CF")) | {"V"}, (rt[1] | flat(join(*argt) if argt else VAL)) - {"V"})
+        r = (resolve(self.mi, name, method=True) or (resolve(self.mi, name) if isinstance(f.value, ast.Name) and f.value.id in self.mi.imports else None)) \
+            if rt is not None else resolve(self.mi, name)
         if r:
-            return self.mk(T.RETURNS.get(r[1][1], "wrap" if r[1][1].endswith(".__init__") else "value"), None, argt)
-        row = lookup("call", "*", name, len(argt))[1] if name else None
-        return self.mk(row[4] if row else None, None, argt)
+            return self.mk(T.RETURNS.get(r[1][1], "wrap" if r[1][1].endswith(".__init__") else "value"), rt, argt)
+        return self.mk((lookup("call", "*", name, len(argt))[1] or [None] * 5)[4], rt, argt)
 
     def funcs_of(self, e, depth=0):
         """Names of the functions an expression may denote ('?' unknown)."""
         if depth > 6:
             return {"?"}
         if isinstance(e, ast.Name):
-            if e.id in self.fassign and e.id not in self.nested:
-                return set().union(*[self.funcs_of(v, depth + 1) for v in self.fassign[e.id]])
-            return {e.id}
-        if isinstance(e, ast.Dict):
-            return set().union(*[self.funcs_of(v, depth + 1) for v in e.values]) if e.values else {"?"}
-        if isinstance(e, ast.Subscript):
-            return self.funcs_of(e.value, depth + 1)
-        if isinstance(e, ast.Call) and _last(e.func) == "partial" and e.args:
-            return self.funcs_of(e.args[0], depth + 1)
+            vals = self.fassign.get(e.id, []) if e.id not in self.nested else []
+            return set().union(*[self.funcs_of(v, depth + 1) for v in vals]) if vals else {e.id}
+        if isinstance(e, ast.Dict) and e.values:
+            return set().union(*[self.funcs_of(v, depth + 1) for v in e.values])
+        if isinstance(e, ast.Subscript) or (isinstance(e, ast.Call) and _last(e.func) == "partial" and e.args):
+            return self.funcs_of(e.value if isinstance(e, ast.Subscript) else e.args[0], depth + 1)
         if isinstance(e, ast.Call) and _last(e.func) in T.GETTERS:
             return {"<getter>"}
-        if isinstance(e, ast.Lambda):
-            return {"<lambda>"}
-        return {e.attr} if isinstance(e, ast.Attribute) else {"?"}
+        return {"<lambda>"} if isinstance(e, ast.Lambda) else {e.attr} if isinstance(e, ast.Attribute) else {"?"}
 
     # ---- positions
     def refs(self, name):
         return [n for n in ast.walk(self.root) if isinstance(n, ast.Name) and n.id == name and isinstance(n.ctx, ast.Load)]
 
+    def up(self, node):
+        """(parent, field, index, nested function being left or None) from node up to the root."""
+        while node is not self.root:
+            p, field, i = self.par[node]
+            yield p, field, i, (p if isinstance(p, ast.FunctionDef) and p is not self.root else None)
+            node = p
+
     def in_context(self, node, seen=()):
-        cur = node
-        while cur is not self.root:
-            p, field, _ = self.par[cur]
+        """Text saying why an undo registered at `node` lands in a context of this call, or None."""
+        for p, field, _, nest in self.up(node):
             if isinstance(p, ast.With) and field == "body" and any("M" in self.ev(it.context_expr)[0] for it in p.items):
                 return f"inside `with {ast.unparse(p.items[0].context_expr)}:` (L{p.lineno})"
-            if isinstance(p, ast.FunctionDef) and p is not self.root and p not in seen and self.refs(p.name):
-                rs = [self.in_context(r, seen + (p,)) for r in self.refs(p.name)]
-                return f"nested `{p.name}`: every reference {rs[0]}" if all(rs) else None
-            cur = p
-        return f"precondition `ctx` of helper {self.qual} (checked at its references)" if "ctx" in self.requires else None
+            if nest and nest not in seen and self.refs(nest.name):  # a nested function counts where it is referenced
+                rs = [self.in_context(r, seen + (nest,)) for r in self.refs(nest.name)]
+                return f"nested `{nest.name}`, every reference {rs[0]}" if all(rs) else None
+        return f"by precondition `ctx` of helper {self.qual} (checked at its references)" if "ctx" in self.requires else None
 
     def truthy_at(self, node, name):
-        cur = node
-        while cur is not self.root:
-            p, field, i = self.par[cur]
-            if i is not None and field in ("body", "orelse", "finalbody"):
-                if any(isinstance(x, ast.Name) and x.id == name and isinstance(x.ctx, ast.Store) for s in getattr(p, field)[:i] for x in ast.walk(s)):
-                    return False
+        """`name` is tested by an enclosing `while name:` / `if name:` and not mentioned between the test and node."""
+        for p, field, i, _ in self.up(node):
+            if i is not None and field in ("body", "orelse", "finalbody") and \
+                    any(isinstance(x, ast.Name) and x.id == name for s in getattr(p, field)[:i] for x in ast.walk(s)):
+                return False
             if isinstance(p, (ast.While, ast.If)) and field == "body" and isinstance(p.test, ast.Name) and p.test.id == name:
                 return True
-            cur = p
         return False
 
     def establishes(self, s, token):
-        """Does the simple statement s establish `token` on normal completion?  -> 'yes' | reason(str) | None"""
-        if not isinstance(s, (ast.Assign, ast.Expr, ast.AnnAssign)):
+        """Does the simple statement s establish `token` on normal completion?  -> 'yes' | reason (conditional) | None"""
+        if not isinstance(s, (ast.Assign, ast.Expr, ast.AnnAssign)) or not self.in_context(s):
             return None
-        if token == "objective" and isinstance(s, ast.Assign) and self.in_context(s):
-            if any(isinstance(t, ast.Attribute) and t.attr == "objective" and "M" in self.ev(t.value)[0] for t in s.targets):
-                return "yes"
+        if token == "objective" and isinstance(s, ast.Assign) and \
+                any(isinstance(t, ast.Attribute) and t.attr == "objective" and "M" in self.ev(t.value)[0] for t in s.targets):
+            return "yes"
         call = s.value
-        if not isinstance(call, ast.Call) or not _last(call.func):
-            return None
-        r = resolve(self.mi, _last(call.func))
-        if not r or r[0] != "helper" or not helper_establishes(HP[r[1]], token) or not self.in_context(s):
+        r = resolve(self.mi, _last(call.func)) if isinstance(call, ast.Call) else None
+        if not r or r[0] != "helper" or not helper_establishes(HP[r[1]], token) or not any("M" in t[0] for t in self.argt(call)):
             return None
         h = HP[r[1]]
-        if not any("M" in t[0] for t in self.argt(call)):
-            return None
         cond = h["establishes"][token]
-        if cond is None:
-            return "yes"
-        params = [a.arg for a in source.module(h["mod"]).find(h["fn"]).args.args]
-        arg = next((k.value for k in call.keywords if k.arg == cond), None)
-        if arg is None and cond in params and params.index(cond) < len(call.args):
-            arg = call.args[params.index(cond)]
-        if isinstance(arg, ast.Name) and self.truthy_at(call, arg.id):
+        arg = _arg_for(call, source.module(h["mod"]).find(h["fn"]), cond) if cond else None
+        if cond is None or (isinstance(arg, ast.Name) and self.truthy_at(call, arg.id)):
             return "yes"
         return f"`{h['fn']}` (L{s.lineno}) establishes `{token}` only when `{ast.unparse(arg) if arg else cond}` is non-empty, which is not evident here"
 
     def covered(self, node, token, seen=()):
         """Was `token` established earlier in a still open context?  -> ('yes'|'maybe'|'no', text)"""
-        cur, maybe = node, None
-        while cur is not self.root:
-            p, field, i = self.par[cur]
+        maybe = None
+        for p, field, i, nest in self.up(node):
             if i is not None and field in ("body", "orelse", "finalbody"):
-                for s in reversed(getattr(p, field)[:i]):
+                for s in reversed(getattr(p, field)[:i]):  # earlier statements of the same block dominate the site
                     st = self.establishes(s, token)
                     if st == "yes":
                         return "yes", f"`{ast.unparse(s).splitlines()[0][:60]}` at L{s.lineno} dominates the site inside the open context"
                     maybe = maybe or st
-            if isinstance(p, ast.FunctionDef) and p is not self.root and p not in seen and self.refs(p.name):
-                rs = [self.covered(r, token, seen + (p,)) for r in self.refs(p.name)]
-                return min(rs, key=lambda x: ("no", "maybe", "yes").index(x[0]))
-            cur = p
+            if nest and nest not in seen and self.refs(nest.name):
+                return min([self.covered(r, token, seen + (nest,)) for r in self.refs(nest.name)], key=lambda x: ORDER.index(x[0]))
         if token in self.requires:
             return "yes", f"precondition `{token}` of helper {self.qual} (checked at its references)"
         return ("maybe", maybe) if maybe else ("no", f"no statement establishing `{token}` dominates the site inside an open context")
 
     def top_index(self, node):
-        cur = node
-        while self.par[cur][0] is not self.root:
-            cur = self.par[cur][0]
-            if isinstance(cur, (ast.FunctionDef, ast.Lambda)):
+        for p, field, i, nest in self.up(node):
+            if nest:
                 return -1
-        return self.par[cur][2] if self.par[cur][1] == "body" else -1
+            if p is self.root:
+                return i if field == "body" else -1
+        return -1
 
-    def entry_save(self, vname):
-        """Path P if `vname = P` is the only binding of vname, at top level, before every effectful site."""
-        binds = [n for n in ast.walk(self.root) if isinstance(n, ast.Name) and n.id == vname and isinstance(n.ctx, ast.Store)]
-        if len(binds) != 1 or vname in [a.arg for a in self.root.args.args]:
-            return None
-        st, field, i = self.par[binds[0]]
+    def entry_save(self, vname, strict=True):
+        """Path P if `vname = P` is the only binding of vname, a top-level statement executed before every effectful site."""
+        binds = [n for n in ast.walk(self.root) if isinstance(n, (ast.Name, ast.arg)) and vname == getattr(n, "id", getattr(n, "arg", None))
+                 and not isinstance(getattr(n, "ctx", None), ast.Load)]
+        st = self.par[binds[0]][0] if len(binds) == 1 and isinstance(binds[0], ast.Name) else None
         if not (isinstance(st, ast.Assign) and self.par[st][0] is self.root and self.par[st][1] == "body" and isinstance(st.value, ast.Attribute)):
             return None
-        idx = self.par[st][2]
-        if any(c.startswith(EFFECTFUL) and not (c.startswith("raw") and self.is_restore(n)) and self.top_index(n) <= idx for n, c in self.classes):
+        if strict and any(c.startswith(EFFECTFUL) and not (c.startswith("raw") and self.is_restore(n)) and self.top_index(n) <= self.par[st][2]
+                          for n, c in self.classes):
             return None
         return norm(ast.unparse(st.value))
 
-    def is_restore(self, node):
-        st = self.par.get(node, (None,))[0] if isinstance(node, ast.Attribute) else None
+    def is_restore(self, node, strict=False):
+        st = self.par[node][0] if isinstance(node, ast.Attribute) else None
         return (isinstance(st, ast.Assign) and isinstance(st.value, ast.Name) and st.targets == [node]
-                and self._save_path(st.value.id) == norm(ast.unparse(node)))
-
-    def _save_path(self, vname):  # syntactic part of entry_save (no recursion into site classes)
-        binds = [n for n in ast.walk(self.root) if isinstance(n, ast.Name) and n.id == vname and isinstance(n.ctx, ast.Store)]
-        st = self.par[binds[0]][0] if len(binds) == 1 else None
-        return norm(ast.unparse(st.value)) if isinstance(st, ast.Assign) and isinstance(st.value, ast.Attribute) else None
+                and self.entry_save(st.value.id, strict) == norm(ast.unparse(node)))
 
     def try_finally(self, stmt, path):
-        cands, cur = [], stmt
-        while cur is not self.root:
-            q, fld, _ = self.par[cur]
-            if isinstance(q, ast.Try) and fld in ("body", "handlers", "orelse"):
-                cands.append(q)
-            cur = q
+        cands = [p for p, field, _, _ in self.up(stmt) if isinstance(p, ast.Try) and field in ("body", "handlers", "orelse")]
         p, field, i = self.par[stmt]
         if i is not None and i + 1 < len(getattr(p, field)) and isinstance(getattr(p, field)[i + 1], ast.Try):
             cands.append(getattr(p, field)[i + 1])  # the store is atomic (A4): nothing can raise between it and the try
         for y in cands:
-            for s in y.finalbody:
-                if not (isinstance(s, ast.Assign) and len(s.targets) == 1 and isinstance(s.targets[0], ast.Attribute)
-                        and isinstance(s.value, ast.Name) and self.entry_save(s.value.id) == norm(ast.unparse(s.targets[0]))):
+            for s in y.finalbody:  # only restoring writes may precede the one we need (anything else might raise first)
+                if not (isinstance(s, ast.Assign) and len(s.targets) == 1 and self.is_restore(s.targets[0], strict=True)):
                     break
                 if norm(ast.unparse(s.targets[0])) == path:
                     return f"(i) `finally` at L{s.lineno} restores it from `{s.value.id}`, saved from the same attribute at entry"
@@ -493,90 +418,82 @@ class Fn:
     def owned_prefix(self, recv):
         """Literal name prefix under which a receiver was looked up in <M>.constraints / <M>.variables."""
         vals = self.fassign.get(recv.id, []) if isinstance(recv, ast.Name) else [recv]
-        if len(vals) != 1:
-            return None
-        v = vals[0]
+        v = vals[0] if len(vals) == 1 else None
         base, key = (v.func.value, v.args[0]) if isinstance(v, ast.Call) and isinstance(v.func, ast.Attribute) and v.func.attr == "get" and v.args \
             else (v.value, v.slice) if isinstance(v, ast.Subscript) else (None, None)
         if not (isinstance(base, ast.Attribute) and base.attr in ("constraints", "variables") and "M" in self.ev(base.value)[0]):
             return None
         if isinstance(key, ast.Call) and isinstance(key.func, ast.Attribute) and key.func.attr == "format":
             key = key.func.value
-        if isinstance(key, ast.BinOp) and isinstance(key.op, ast.Add):
-            key = key.left
-        if isinstance(key, ast.JoinedStr) and key.values:
-            key = key.values[0]
-        return key.value.split("{")[0] if isinstance(key, ast.Constant) and isinstance(key.value, str) and key.value.split("{")[0] else None
+        key = key.left if isinstance(key, ast.BinOp) and isinstance(key.op, ast.Add) else key
+        key = key.values[0] if isinstance(key, ast.JoinedStr) and key.values else key
+        return (key.value.split("{")[0] or None) if isinstance(key, ast.Constant) and isinstance(key.value, str) else None
 
     # ---- sites
     def sites(self):
-        """-> list of dict(node, callee, cls, row, note, recv) in source order."""
+        """-> list of dict(node, callee, cls, irow, note, recv) in source order."""
         out = []
 
         def add(node, callee, cls, irow=None, note="", recv=None):
             out.append(dict(node=node, callee=callee, cls=cls, irow=irow, note=note, recv=recv))
 
+        def table(node, label, form, atom, name, nargs=None, recv=None):
+            i, row = lookup(form, atom, name, nargs)
+            add(node, label, row[3] if row else "unknown", i, row[6] if row else "", recv)
+
         def named(node, name, label, relevant):
-            if name in self.nested or name in ("<getter>", "<lambda>"):
-                return add(node, label, "pure", note="local function: its body is scanned in place") if relevant else None
             r = resolve(self.mi, name)
-            if r and r[0] == "helper":
-                return None  # judged at the reference (site_ref)
-            if not relevant:
-                return None
-            if r:
-                return add(node, label, "analysis", note=f"{r[1][0]}:{r[1][1]} is in ANALYSES")
-            if name in T.CONSTRUCTORS:
-                return None
-            i, row = lookup("call", "*", name, None) if name != "?" else (None, None)
-            add(node, label, row[3] if row else "unknown", i, row[6] if row else "")
+            if not relevant or (r and r[0] == "helper") or name in T.CONSTRUCTORS:
+                return  # helpers are judged at the reference (below)
+            if name in self.nested or name in ("<getter>", "<lambda>"):
+                add(node, label, "pure", note="local function: its body is scanned in place")
+            elif r:
+                add(node, label, "analysis", note=f"{r[1][0]}:{r[1][1]} is in ANALYSES")
+            else:
+                table(node, label, "call", "*", name)
 
         def store(tgt, stmt):
-            if isinstance(tgt, (ast.Tuple, ast.List)):
-                for e in tgt.elts:
-                    store(e, stmt)
+            for e in tgt.elts if isinstance(tgt, (ast.Tuple, ast.List)) else []:
+                store(e, stmt)
             if not isinstance(tgt, (ast.Attribute, ast.Subscript)) or self.key_of(tgt) is not None:
                 return
             rt = self.ev(tgt.value)
-            if isinstance(stmt, ast.Delete) and rt[0] & MODEL:
-                return add(tgt, "del", "unknown", note="deletion on a model object")
             form, name = ("set", tgt.attr) if isinstance(tgt, ast.Attribute) else ("setitem", _last(tgt.value) or "?")
-            if form == "set" and name == "compartments" and "C" in rt[0]:
-                return add(tgt, "." + name, "unknown", note="Model.copy() shares _compartments by reference (model.py L393-395)")
-            for a in sorted(rt[0] & MODEL):
-                i, row = lookup(form, a, name)
-                add(tgt, ("." if form == "set" else "[]") + name, row[3] if row else "unknown", i, row[6] if row else "", recv=tgt.value)
+            if isinstance(stmt, ast.Delete) and rt[0] & MODEL:
+                add(tgt, "del", "unknown", note="deletion on a model object")
+            elif form == "set" and name == "compartments" and "C" in rt[0]:
+                add(tgt, "." + name, "unknown", note="Model.copy() shares _compartments by reference with the original")
+            else:
+                for a in sorted(rt[0] & MODEL):
+                    table(tgt, ("." if form == "set" else "[]") + name, form, a, name, recv=tgt.value)
 
+        if any(isinstance(n, (ast.Yield, ast.YieldFrom)) for n in ast.walk(self.root)):
+            add(self.root, "yield", "unknown", note="generator: its exits are deferred, frame reasoning does not apply")
         for n in ast.walk(self.root):
             if isinstance(n, (ast.Assign, ast.AnnAssign, ast.AugAssign, ast.Delete)):
                 for tgt in (n.targets if isinstance(n, (ast.Assign, ast.Delete)) else [n.target]):
                     store(tgt, n)
                 if isinstance(n, ast.AugAssign) and isinstance(n.target, ast.Name):
-                    tt, vt = self.ev(n.target), self.ev(n.value)
-                    atoms = (tt[0] & MODEL) or ((tt[0] & set("FC")) if flat(vt) & MODEL else set())
-                    for a in sorted(atoms):
-                        i, row = lookup("iadd", a, n.target.id)
-                        add(n, f"{n.target.id} {type(n.op).__name__}=", row[3] if row else "unknown", i, row[6] if row else "")
+                    tt = self.ev(n.target)
+                    for a in sorted((tt[0] & MODEL) or ((tt[0] & set("FC")) if flat(self.ev(n.value)) & MODEL else set())):
+                        table(n, f"{n.target.id} {type(n.op).__name__}=", "iadd", a, n.target.id)
             elif isinstance(n, ast.Call):
-                f, argt = n.func, self.argt(n)
-                name = _last(f)
+                f, argt, name = n.func, self.argt(n), _last(n.func)
                 aat = flat(join(*argt)) & MODEL if argt else frozenset()
                 rt = self.ev(f.value) if isinstance(f, ast.Attribute) else None
-                if name in T.HOF and n.args and not (rt and rt[0] & MODEL):
-                    rest = flat(join(*argt[1:])) & MODEL if argt[1:] else frozenset()
+                if name in T.HOF and n.args and not (rt and rt[0] & MODEL):  # map(f, xs), partial(f, a): f is what gets called
                     for fn in sorted(self.funcs_of(n.args[0])):
-                        named(n, fn, f"{name}({fn})", bool(rest))
+                        named(n, fn, f"{name}({fn})", bool(argt[1:] and flat(join(*argt[1:])) & MODEL))
                 elif rt is not None and rt[0] & MODEL:
                     for a in sorted(rt[0] & MODEL):
                         if a == "M" and name in MODEL_METHODS:
                             add(n, name, "analysis", note=f"Model.{name} is in ANALYSES")
-                            continue
-                        i, row = lookup("method", a, name, len(argt))
-                        add(n, name, row[3] if row else "unknown", i, row[6] if row else "", recv=f.value)
+                        else:
+                            table(n, name, "method", a, name, len(argt), recv=f.value)
                 elif rt is not None:
                     relevant = bool(aat or (rt[1] & MODEL))
                     r = resolve(self.mi, name, method=True) if relevant else None
-                    if r and r[0] == "analysis":
+                    if r:
                         add(n, name, "analysis", note=f"{r[1][0]}:{r[1][1]} is in ANALYSES (method resolved by name)")
                     else:
                         named(n, name, name, relevant)
@@ -593,131 +510,101 @@ class Fn:
         out.sort(key=lambda s: (s["node"].lineno, s["node"].col_offset, s["callee"], s["cls"]))
         return out
 
-    def later_call(self, node):
-        loop = any(isinstance(a, (ast.For, ast.While)) for a in self.ancestors(node))
-        cs = [c for c in ast.walk(self.root) if isinstance(c, ast.Call) and (c.lineno > node.lineno or loop) and c is not node
-              and not any(node is x for x in ast.walk(c))]
-        return min(cs, key=lambda c: (c.lineno, c.col_offset)) if cs else None
-
-    def ancestors(self, node):
-        while node is not self.root:
-            node = self.par[node][0]
-            yield node
-
-    def stmt_of(self, node):
-        while not isinstance(node, ast.stmt):
-            node = self.par[node][0]
-        return node
-
+    # ---- verdicts
     def judge(self, s):
         node, cls, irow = s["node"], s["cls"], s["irow"]
-        if irow is not None and T.EFFECTS[irow][5]:
-            ok, text = verify_evidence(irow)
-            if not ok:
-                return "undecided", f"table evidence no longer holds on this source tree: {text}"
+        if irow is not None and T.EFFECTS[irow][5] and not verify_evidence(irow)[0]:
+            return "undecided", f"table evidence no longer holds on this source tree: {verify_evidence(irow)[1]}"
         if cls in ("pure", "copy", "analysis"):
             return "discharged", s["note"] or cls
         if cls == "unknown":
             return "undecided", "callee / write not classified in contracts/c13_frames.EFFECTS" + (": " + s["note"] if s["note"] else "")
-        if cls == "ctx":
-            why = self.in_context(node)
-            if why:
-                return "discharged", f"context-aware mutator {why}; undo registered, run by __exit__ on every exit (C03)"
-            return "failed", ("context-aware mutator outside every `with <model>:` block of this function: get_context() is None, "
-                              "no undo is registered, the change survives every exit")
         if cls == "helper":
             return self.judge_ref(s)
-        return self.judge_raw(s, cls.split(":")[1])
+        if cls != "ctx":
+            return self.judge_raw(s, cls.split(":")[1])
+        why = self.in_context(node)
+        if why:
+            return "discharged", f"context-aware mutator {why}: undo registered, run by __exit__ on every exit (C03)"
+        return "failed", ("context-aware mutator outside every `with <model>:` block of this function: get_context() is None, "
+                          "no undo is registered, the change survives every exit")
 
     def judge_ref(self, s):
         node, h = s["node"], HP[s["recv"]]
         p, field, _ = self.par[node]
-        if isinstance(p, ast.Call) and field == "func":
-            params = [a.arg for a in source.module(h["mod"]).find(h["fn"]).args.args]
-            marg = next((k.value for k in p.keywords if k.arg == h["model"]), None)
-            if marg is None and h["model"] in params and params.index(h["model"]) < len(p.args):
-                marg = p.args[params.index(h["model"])]
-            if marg is not None and "M" not in self.ev(marg)[0]:
-                if self.ev(marg)[0] & MODEL:
-                    return "undecided", f"helper applied to `{ast.unparse(marg)}`, which is part of the model but not the model"
-                return "discharged", f"helper applied to `{ast.unparse(marg)}`, a copy / fresh model, not the argument model"
+        marg = _arg_for(p, source.module(h["mod"]).find(h["fn"]), h["model"]) if isinstance(p, ast.Call) and field == "func" else None
+        if marg is not None and "M" not in self.ev(marg)[0]:
+            if self.ev(marg)[0] & MODEL:
+                return "undecided", f"modifier applied to `{ast.unparse(marg)}`, which is reachable from the model but is not the model"
+            return "discharged", f"modifier applied to `{ast.unparse(marg)}`, a copy / fresh model, not the argument model"
         texts, worst = [], "yes"
         for tok in h["requires"]:
-            st, why = ("yes" if self.in_context(node) else "no", self.in_context(node) or "reference is outside every `with <model>:` block") \
-                if tok == "ctx" else self.covered(node, tok)
+            ctx = self.in_context(node)
+            st, why = ("yes" if ctx else "no", ctx or "reference is outside every `with <model>:` block") if tok == "ctx" else self.covered(node, tok)
             texts.append(f"{tok}: {why}")
-            worst = min(worst, st, key=("no", "maybe", "yes").index)
-        res = {"yes": "discharged", "maybe": "undecided", "no": "failed"}[worst]
-        return res, f"modifier `{h['fn']}` requires {list(h['requires'])} -- " + "; ".join(texts)
+            worst = min(worst, st, key=ORDER.index)
+        return {"yes": "discharged", "maybe": "undecided", "no": "failed"}[worst], f"modifier `{h['fn']}` requires {list(h['requires'])} -- " + "; ".join(texts)
 
     def judge_raw(self, s, resource):
-        node = s["node"]
-        stmt = self.stmt_of(node)
+        node, stmt = s["node"], s["node"]
+        while not isinstance(stmt, ast.stmt):
+            stmt = self.par[stmt][0]
         path = norm(ast.unparse(node)) if isinstance(node, ast.Attribute) else None
         if path and isinstance(stmt, ast.Assign) and stmt.targets == [node]:
-            if isinstance(stmt.value, ast.Name) and self.entry_save(stmt.value.id) == path:
+            if self.is_restore(node, strict=True):
                 return "discharged", f"(iii) writes back `{stmt.value.id}`, read from the same attribute at entry before any effect: restores the entry value"
             tf = self.try_finally(stmt, path)
             if tf:
                 return "discharged", tf
-        status = "no"
-        if resource == "objective":
-            status, why = self.covered(node, "objective")
-            if status == "yes":
-                return "discharged", f"(ii) objective write wiped by the set_objective reset registered before it: {why}"
-        if resource == "solver" and s["recv"] is not None:
-            pre = self.owned_prefix(s["recv"])
-            for tok in ([t for t in self.requires if t.startswith("owned:")] if pre else []):
-                if fnmatch.fnmatchcase(pre, tok[6:]) or fnmatch.fnmatchcase(pre + "x", tok[6:]):
-                    return "discharged", f"(iv) object looked up as `{pre}...`: precondition `{tok}` of helper {self.qual}: owned by the open context, dropped at exit"
-        nxt, ctx = self.later_call(node), self.in_context(node)
-        tail = f"e.g. an exception from `{ast.unparse(nxt.func)}(...)` at L{nxt.lineno} exits with the write in place" if nxt else "it is never written back"
+        status, why = self.covered(node, "objective") if resource == "objective" else ("no", "")
+        if status == "yes":
+            return "discharged", f"(ii) objective write wiped by the set_objective reset registered before it: {why}"
+        pre = self.owned_prefix(s["recv"]) if resource == "solver" and s["recv"] is not None else None
+        for tok in [t for t in self.requires if pre and t.startswith("owned:") and fnmatch.fnmatchcase(pre, t[6:])]:
+            return "discharged", f"(iv) object looked up as `{pre}...`: precondition `{tok}` of helper {self.qual}: owned by the open context, dropped at exit"
         if resource == "remove":
             return "failed", ("removal from the solver with no undo registered: an object that exists at entry (the lookup succeeded) is lost "
                               "for good, also when the enclosing context exits")
         if status == "maybe":
             return "undecided", f"objective write inside a context, cover not provable: {why}"
-        if resource == "objective" or not ctx:
-            return "failed", (f"behind-the-back write to {resource}: no try/finally restore, no context reset that covers it "
-                              f"({'inside a context, but ' + why if ctx and resource == 'objective' else 'outside every context'}); {tail}")
-        return "undecided", f"behind-the-back write to a solver object {ctx}: harmless only if that object was added inside the same context, which is not derivable here"
+        ctx = self.in_context(node)
+        if resource != "objective" and ctx:
+            return "undecided", f"behind-the-back write to a solver object {ctx}: harmless only if that object was added inside the same context, which is not derivable here"
+        loop = any(isinstance(p, (ast.For, ast.While)) for p, _, _, _ in self.up(node))
+        later = sorted([c for c in ast.walk(self.root) if isinstance(c, ast.Call) and (c.lineno > node.lineno or loop) and node not in ast.walk(c)],
+                       key=lambda c: (c.lineno, c.col_offset))
+        tail = f"e.g. an exception from `{ast.unparse(later[0].func)}(...)` at L{later[0].lineno} exits with the write in place" if later else "it is never written back"
+        return "failed", (f"behind-the-back write to {resource}: no try/finally restore and no context reset that covers it "
+                          f"({'inside a context, but ' + why if ctx else 'outside every context'}); {tail}")
 
     def run(self):
         sites = self.sites()
         self.classes = [(s["node"], s["cls"]) for s in sites]
-        recs = []
-        for s in sites:
-            res, detail = self.judge(s)
-            recs.append({"name": f"C13/{self.rel}:{self.qual}/site@L{s['node'].lineno}:{s['callee']}", "function": f"{self.rel}:{self.qual}",
-                         "line": s["node"].lineno, "callee": s["callee"], "class": s["cls"].split(":")[0], "result": res, "detail": detail})
-        return recs
-
-
-_init_cache = {}
+        return [dict(zip(("result", "detail"), self.judge(s)), name=f"C13/{self.rel}:{self.qual}/site@L{s['node'].lineno}:{s['callee']}",
+                     function=f"{self.rel}:{self.qual}", line=s["node"].lineno, callee=s["callee"], **{"class": s["cls"].split(":")[0]}) for s in sites]
 
 
 def init_env(rel, cls):
     """Kinds of self.* established by the __init__ of a class and of its bases (T.BASES)."""
-    key = (source.SRC, rel, cls)
-    if key not in _init_cache:
+    key = (source.SRC, "init", rel, cls)
+    if key not in _cache:
         env, chain = {}, [(rel, cls)]
         while chain[-1][1] in T.BASES:
             chain.append(T.BASES[chain[-1][1]])
         for r, c in chain:
             if (r, c + ".__init__") in AN:
-                f = Fn(r, c + ".__init__", AN[(r, c + ".__init__")])
-                for k, v in f.env.items():
+                for k, v in Fn(r, c + ".__init__", AN[(r, c + ".__init__")]).env.items():
                     if k.startswith("self."):
                         env[k] = join(env.get(k, EMPTY), v)
-        _init_cache[key] = env
-    return dict(_init_cache[key])
+        _cache[key] = env
+    return dict(_cache[key])
 
 
 def check_all(verbose=False):
-    """One record per (function, site); see module docstring.  Re-reads the source tree on every call."""
+    """One record per (function, site): {name, function, line, callee, class, result, detail}.  The source tree is
+    re-read on every call.  verbose=True prints every record, verbose="open" only the failed / undecided ones."""
     recs, users = [], {}
-    entries = [(m, q, me, None) for m, q, me in T.ANALYSES] + [(h["mod"], h["fn"], h["model"], h) for h in T.HELPERS]
-    for m, q, me, h in entries:
+    for m, q, me, h in [(m, q, me, None) for m, q, me in T.ANALYSES] + [(h["mod"], h["fn"], h["model"], h) for h in T.HELPERS]:
         try:
             got = Fn(m, q, me, h).run()
         except (KeyError, OSError, SyntaxError) as e:
@@ -727,33 +614,32 @@ def check_all(verbose=False):
             if r["class"] == "helper":
                 users.setdefault(r["callee"], set()).add(r["function"].split(":")[1])
         recs.extend(got)
-    for r in recs:  # a failing modifier body invalidates everyone who relies on its contract
+    for r in recs:  # a modifier whose body is not discharged invalidates everyone who relies on its contract
         fn = r["function"].split(":")[1]
         if r["result"] != "discharged" and fn in users:
             r["detail"] += f" [contract of modifier `{fn}` relied upon by: {', '.join(sorted(users[fn]))}]"
-    if verbose:
-        for r in recs:
-            if verbose is True or r["result"] != "discharged":
-                print(f"{r['result']:10s} {r['class']:8s} {r['name']}\n           {r['detail']}")
+    for r in recs if verbose else []:
+        if verbose is True or r["result"] != "discharged":
+            print(f"{r['result']:10s} {r['class']:8s} {r['name']}\n           {r['detail']}")
     return recs
 
 
 def explain():
-    """Assumptions and the table evidence as re-verified on the current source tree."""
+    """Assumptions, accepted compensation patterns and the table evidence as re-verified on the current source tree."""
     ev = [f"{row[0]} {row[1]}.{row[2][:40]} -> {row[3]}: {verify_evidence(i)[1]} [{row[6]}]" for i, row in enumerate(T.EFFECTS) if row[5]]
-    hs = [f"{h['fn']} requires {list(h['requires'])} establishes {h['establishes']} "
-          f"(objective establishment verified: {helper_establishes(h, 'objective') if 'objective' in h['establishes'] else 'n/a'}): {h['why']}" for h in T.HELPERS]
-    return {"assumptions": list(T.ASSUMPTIONS), "raw_patterns": __doc__.split("raw     ")[1].split("helper reference")[0].strip(),
-            "evidence": ev, "helpers": hs, "source_tree": source.SRC}
+    hs = [f"{h['fn']} requires {list(h['requires'])} establishes {h['establishes']} (objective establishment re-verified: "
+          f"{helper_establishes(h, 'objective') if 'objective' in h['establishes'] else 'n/a'}): {h['why']}" for h in T.HELPERS]
+    return {"source_tree": source.SRC, "assumptions": list(T.ASSUMPTIONS), "rules": __doc__.split(" 3. ")[1].split("`with` runs")[0].strip(),
+            "evidence": ev, "helpers": hs}
 
 
 def main(argv):
-    recs = check_all(verbose=("-v" in argv) or "failed-only")
+    recs = check_all(verbose=True if "-v" in argv else "open")
     if "--json" in argv:
         print(json.dumps(recs, indent=1))
     n = {k: sum(r["result"] == k for r in recs) for k in ("discharged", "failed", "undecided")}
-    print(f"C13 frame check on {source.SRC}: {len({r['function'] for r in recs})} functions with sites "
-          f"({len(T.ANALYSES)} analyses + {len(T.HELPERS)} helpers checked), {len(recs)} sites: {n}")
+    print(f"C13 frame check on {source.SRC}: {len(T.ANALYSES)} analyses + {len(T.HELPERS)} modifiers checked, "
+          f"{len({r['function'] for r in recs})} of them with sites, {len(recs)} sites: {n}")
     return 1 if n["failed"] else 0
 
 
